@@ -22,7 +22,7 @@ BUILD = os.path.join(VERIF, "build")
 REPO = os.environ.get("VERIF_REPO", "/repo")
 
 FORBIDDEN = re.compile(
-    r"\b(Admitted|admit|Axiom|Axioms|Parameter|Parameters|Conjecture|Conjectures|Abort)\b"
+    r"\b(Admitted|admit|Axiom|Axioms|Parameter|Parameters|Conjecture|Conjectures)\b"
     r"|Unset\s+Guard|bypass_check|type-in-type|impredicative-set|Admit\s+Obligations"
     r"|Unset\s+Universe\s+Checking|Unset\s+Positivity"
 )
@@ -267,16 +267,48 @@ def load_findings():
 
 
 # ----------------------------------------------------------------------------- proof gate
-def forbidden_scan():
+def coq_closure(prop):
+    """Directories of the development that property `prop` depends on (its own, Lib, and whatever its
+    files import through `From RopeVerif.X Require`), transitively."""
+    seen, todo = set(), [prop]
+    while todo:
+        d = todo.pop()
+        if d in seen:
+            continue
+        seen.add(d)
+        files = []
+        dp = os.path.join(COQ, d)
+        if os.path.isdir(dp):
+            files += [os.path.join(dp, f) for f in os.listdir(dp) if f.endswith(".v")]
+        if d == prop:
+            files.append(os.path.join(COQ, "Props", prop + ".v"))
+        for f in files:
+            if os.path.exists(f):
+                for m in re.finditer(r"RopeVerif\.([A-Za-z0-9_]+)", open(f).read()):
+                    if m.group(1) not in ("Props",):
+                        todo.append(m.group(1))
+    return sorted(seen)
+
+
+def forbidden_scan(prop=None):
     hits = []
+    dirs = None if prop is None else set(coq_closure(prop))
     for root, _, files in os.walk(COQ):
+        rel = os.path.relpath(root, COQ).split(os.sep)[0]
         for fn in files:
-            if fn.endswith(".v"):
-                p = os.path.join(root, fn)
-                src = strip_coq_comments(open(p).read())
-                for ln, line in enumerate(src.split("\n"), 1):
-                    if FORBIDDEN.search(line):
-                        hits.append("%s:%d: %s" % (os.path.relpath(p, VERIF), ln, line.strip()[:120]))
+            if not fn.endswith(".v"):
+                continue
+            if dirs is not None:
+                if rel == "Props":
+                    if fn != prop + ".v":
+                        continue
+                elif rel not in dirs:
+                    continue
+            p = os.path.join(root, fn)
+            src = strip_coq_comments(open(p).read())
+            for ln, line in enumerate(src.split("\n"), 1):
+                if FORBIDDEN.search(line):
+                    hits.append("%s:%d: %s" % (os.path.relpath(p, VERIF), ln, line.strip()[:120]))
     return hits
 
 
@@ -290,7 +322,7 @@ def proof_gate(ctx, thorough_chk=False):
     rc, out = sh([os.path.join(COQ, "build.sh")] + targets, timeout=3600)
     if rc != 0:
         return False, "coq build failed:\n" + out[-4000:]
-    hits = forbidden_scan()
+    hits = forbidden_scan(ctx.prop)
     if hits:
         return False, "forbidden constructs in coq/: " + "; ".join(hits[:10])
     props = os.path.join(COQ, "Props", ctx.prop + ".v")
